@@ -4,6 +4,7 @@ import PMV.Driver.Printer
 import PMV.Driver.Fold
 import PMV.Driver.Strings
 import PMV.Driver.Rename
+import PMV.Driver.Minify
 open PMV
 
 def dispatch (cmd : String) (args : List Sexp) : Option String :=
@@ -15,6 +16,8 @@ def dispatch (cmd : String) (args : List Sexp) : Option String :=
   | "cli.violations" => Driver.Cli.violations args
   | "unparse" => Driver.Printer.unparse args
   | "unparse.expr" => Driver.Printer.unparseExpr args
+  | "canon" => Driver.Minify.canon args
+  | "transform" => Driver.Minify.transform args
   | "hoist.place" => Driver.Rename.hoistPlace args
   | "rename.assign" => Driver.Rename.assignCmd args
   | "ministring" => Driver.Strings.ministring args
